@@ -508,6 +508,10 @@ def thread_action(a, where):
 
         def body():
             rec['ident'] = threading.get_ident()
+            if a.get('register'):
+                # a raw thread that calls into ``threading`` (logging does) gets a _DummyThread entry there, which
+                # Python never removes when the thread ends
+                rec['name'] = threading.current_thread().name
             started.set()
             if a.get('hold'):
                 ev.wait(60)
